@@ -90,7 +90,9 @@ def run(res, tier, seed, replay):
                 n = int(a[3:])
                 if n != e - b + 1 and not (n == 0 and e - b + 1 == 1):
                     spec_bad.append((d, "body lexeme [%d:%d] has length %d but the library delimits %d bytes" % (b, e, e - b + 1, n), i))
-            else:
+            elif k != 5:
+                # (a regex body is delimited by the scanner's own states; an expression the library cannot compile is refused
+                #  later, when the catalog is built - only its LENGTH is compared here, when the library gives one)
                 spec_bad.append((d, "body lexeme [%d:%d] is not a value the library accepts (%s)" % (b, e, a), i))
     res.notes["input_distribution"] = {"inputs": len(inputs), "fixture_files": len(files), "ends": ends,
                                        "body_lexemes_checked": len(body_q)}
